@@ -1167,8 +1167,51 @@ let run_c06 file =
   close_in ic;
   Printf.printf "SUMMARY cases=%d disagreements=%d impl_failures=%d impl_errors=0 write_faults=%d reference_faults=%d invalid_settings=%d cli_runs=%d\n" !n !n_dis !n_fail !n_w !n_r !n_i !n_c
 
+(* ---------- C07 ---------- *)
+let c07_clause_name = function
+  | NotReproducible (f, w) -> Printf.sprintf "rebuild-differs:%s:%s" (implode f) (implode w)
+  | BuildFailed f -> "build-failed:" ^ implode f
+  | ForeignStamp (f, w, v) -> Printf.sprintf "timestamp-from-nowhere:%s:%s=%d" (implode f) (implode w) (int_of_z v)
+
+let run_c07 file =
+  let n = ref 0 and n_dis = ref 0 and n_fail = ref 0 and n_b = ref 0 and n_s = ref 0 in
+  let ic = open_in file in
+  let id = ref "" and allowed = ref [] and clauses = ref [] and detail = ref [] in
+  (try
+     while true do
+       let line = input_line ic in
+       let t = Array.of_list (String.split_on_char ' ' line) in
+       match t.(0) with
+       | "rcase" -> id := t.(1); allowed := []; clauses := []; detail := []
+       | "rmtime" -> allowed := zt t.(1) :: !allowed
+       | "rallow" -> allowed := zt t.(2) :: !allowed
+       | "rbuild" ->
+         incr n_b;
+         let b = { b_format = unhex t.(1); b_first = unhex t.(2); b_again = unhex t.(3); b_child = unhex t.(4); b_abs = unhex t.(5); b_late = unhex t.(6) } in
+         let cl = check_build b in
+         if cl <> [] then begin
+           clauses := List.map c07_clause_name cl @ !clauses;
+           detail := Printf.sprintf "%s: first %s, again %s, other process (%s) %s, absolute sources %s, first pass %s" (unhexs t.(1)) (unhexs t.(2)) (unhexs t.(3)) (unhexs t.(7)) (unhexs t.(4)) (unhexs t.(5)) (unhexs t.(6)) :: !detail
+         end
+       | "rstamp" ->
+         incr n_s;
+         let cl = check_stamp !allowed (unhex t.(1)) (unhex t.(2)) (zt t.(3)) in
+         if cl <> [] then clauses := List.map c07_clause_name cl @ !clauses
+       | "rend" ->
+         incr n;
+         if !clauses <> [] then begin
+           incr n_dis; incr n_fail;
+           report !id false (List.sort_uniq compare !clauses) [] (List.rev !detail)
+         end
+       | _ -> ()
+     done
+   with End_of_file -> ());
+  close_in ic;
+  Printf.printf "SUMMARY cases=%d disagreements=%d impl_failures=%d impl_errors=0 builds=%d timestamps=%d\n" !n !n_dis !n_fail !n_b !n_s
+
 let () =
   match Sys.argv with
+  | [| _; "C07"; file |] -> run_c07 file
   | [| _; "C06"; file |] -> run_c06 file
   | [| _; "C12"; file |] -> run_c12 file
   | [| _; "C11"; file |] -> run_c11 file
